@@ -42,6 +42,9 @@ type Replay struct {
 	Trace     []string `json:"trace,omitempty"`
 	Minimised bool     `json:"minimised"`
 	OrigLen   int      `json:"orig_tape_len,omitempty"`
+	// LabelsVersion 2: Labels has one entry per tape value and the recorded run drew zeros beyond the end of the
+	// tape, optional draws included (files written before generators knew optional draws have no version)
+	LabelsVersion int `json:"labels_version,omitempty"`
 }
 type Sample struct {
 	CaseSeed uint64   `json:"case_seed"`
